@@ -21,11 +21,13 @@ theorem digest_roundtrip (b : Block) (d f : Nat) (tl : Stream) (hwf : b.wf = tru
 
 /-- A list environment yields exactly one item node per `\item`, in order, each holding everything
     up to the next `\item` of the same list (nested lists stay inside the item that contains them:
-    they are part of `body.nodes`), with its term. -/
-theorem items_roundtrip (d ty nsp : Nat) (is : Items) (tl : Stream) (f : Nat) (hwf : is.wf = true)
+    they are part of `body.nodes`), with its term — whatever blanks (spaces, blank lines / `\par`)
+    stand between `\begin{..}` and the first `\item` or after an `\item`: the list's children are
+    the items themselves. -/
+theorem items_roundtrip (d ty : Nat) (nsp : List Bool) (is : Items) (tl : Stream) (f : Nat) (hwf : is.wf = true)
     (hf : (Block.list ty nsp is).cost ≤ f) :
     digestNode f (mkT (d + 1) (.begin_ .list ty))
-        (spaces (d + 1) nsp ++ (is.render (d + 1) ++ mkT d (.end_ .list ty) :: tl))
+        (blanks (d + 1) nsp ++ (is.render (d + 1) ++ mkT d (.end_ .list ty) :: tl))
       = some (.mk ⟨d + 1, .begin_ .list ty⟩ (is.nodes (d + 1)), tl) := by
   have h := block_ok (.list ty nsp is) d f tl (by simpa [Block.wf] using hwf) rfl hf
   simpa [headTok, tailR, Block.node, mkT, List.append_assoc] using h
@@ -48,16 +50,17 @@ theorem item_decl_asIs_counterexample :
       (fun ns => ns.map fun n => (n.ch.length, n.ch.map fun i => i.ch.map fun d => d.ch.length)) = some [(1, [[3]])] := by
   decide
 
-/-- non-vacuity: `\begin{description} \item[T] a {b} \begin{itemize}\item x\end{itemize} \item \end{description}` -/
+/-- non-vacuity: a description whose first `\item[T]` follows a space and a blank line, holding `a {b}` and an
+    itemize whose first `\item` follows a blank line, then an empty `\item` -/
 example :
-    let inner := Block.list 1 0 (.cons 0 0 (.cons (.leaf (.text 120)) .nil) .nil)
-    let is := Items.cons 84 1 (.cons (.leaf (.text 97)) (.cons (.grp (.cons (.leaf (.text 98)) .nil)) (.cons inner .nil)))
-      (.cons 0 0 .nil .nil)
+    let inner := Block.list 1 [true] (.cons 0 [] (.cons (.leaf (.text 120)) .nil) .nil)
+    let is := Items.cons 84 [false] (.cons (.leaf (.text 97)) (.cons (.grp (.cons (.leaf (.text 98)) .nil)) (.cons inner .nil)))
+      (.cons 0 [] .nil .nil)
     is.wf = true ∧
-    digestNode 40 (mkT 3 (.begin_ .list 2)) (spaces 3 1 ++ (is.render 3 ++ [mkT 2 (.end_ .list 2), mkT 2 (.text 1)]))
+    digestNode 40 (mkT 3 (.begin_ .list 2)) (blanks 3 [false, true] ++ (is.render 3 ++ [mkT 2 (.end_ .list 2), mkT 2 (.text 1)]))
       = some (.mk ⟨3, .begin_ .list 2⟩ (is.nodes 3), [mkT 2 (.text 1)]) := by
   refine ⟨by decide, ?_⟩
-  exact items_roundtrip 2 2 1 _ _ 40 (by decide) (by decide)
+  exact items_roundtrip 2 2 [false, true] _ _ 40 (by decide) (by decide)
 
 /-- A tabular/array is digested into one row node per written row and one cell node per written
     cell, in order, each cell holding what stands between the separators (nested tables, lists,
